@@ -666,4 +666,30 @@ example :
 
 end cache
 
+/-! ### concurrent first uses of one statement (the inflight wait), conducted schedules -/
+section conc
+open RoutingCache.Conc
+
+/-- **Concurrent first uses.** For EVERY schedule of events on one statement - any number of goroutines asking for the
+    routing key, in any interleaving with the arrival of the server's answer to PREPARE and with PREPARE failures - the
+    owner / waiter machinery of the inflight cache entry answers exactly what the specification without a cache answers:
+    every goroutine gets the key of ITS OWN bound values computed from the statement's metadata as soon as the
+    statement is prepared (the owner and all waiters at that moment, later ones at once), and exactly the goroutines in
+    flight when a PREPARE fails get that failure - the failure is not kept. (op rkq; statements with a malformed PREPARE
+    answer - an index panic - are excluded as in C09_cache_transparent_partial.) -/
+theorem C09_cache_concurrent_first_use (enc : τ → ν → Routing.Enc) (st : RoutingCache.Stmt τ)
+    (hcr : RoutingCache.crashes st = false) (evs : List (Ev ν)) :
+    run enc st (false, .idle) evs = Spec.run enc st (false, []) evs :=
+  run_spec enc st hcr evs _ _ ⟨rfl, rfl⟩
+
+/-- non-vacuity: two goroutines wait (g1 owner, g2 waiter), the answer arrives: each gets the key of its own values; g3
+    then hits the cache; and a failed PREPARE reaches owner and waiter, the next use starts afresh -/
+example : run toyEnc (toyStmt 0) (false, .idle) [.go 1 [[1], [2]], .go 2 [[3], [4]], .ansOk, .go 3 [[5], [6]]]
+    = [[], [], [(1, .res (.key (some [0, 1]))), (2, .res (.key (some [0, 3])))], [(3, .res (.key (some [0, 5])))]] := by decide
+example : run toyEnc (toyStmt 0) (false, .idle) [.go 1 [[1], [2]], .go 2 [[3], [4]], .ansFail, .go 3 [[5], [6]], .ansOk]
+    = [[], [], [(1, .errPrepare), (2, .errPrepare)], [], [(3, .res (.key (some [0, 5])))]] := by decide
+
+end conc
+
+
 end C09
